@@ -189,9 +189,10 @@ TDone ==
        \cup (IF E.shutdown THEN {} ELSE {"no_shutdown"})
        \cup (IF E.remaining = 0 THEN {} ELSE {"remaining_not_zero"})
        \cup (IF Ext \subseteq c.fetched THEN {} ELSE {"DeliveredAll"}))
+\* a run that does not end normally never hands the requested datasets to its caller
 TAbnormal ==
   /\ l <= Len(T) /\ E.ev \in {"crash", "spin", "deadlock", "taskfailure", "abort"}
-  /\ Skip({"event_" \o E.ev})
+  /\ Skip({"event_" \o E.ev} \cup (IF Ext # {} THEN {"requested_outputs_never_returned"} ELSE {}))
 Known == {"assign", "startmigrate", "migrate", "plan", "flush", "recvevent", "recvpayload", "endwait", "hostdeliver",
           "take", "publish", "datacmd", "store", "shutdown", "done", "crash", "spin", "deadlock", "taskfailure", "abort"}
 TUnknown == l <= Len(T) /\ E.ev \notin Known /\ Skip({"struct_unknown_event"})
